@@ -513,12 +513,9 @@ def run(ctx):
     else:
         ctx.violation("R6.3", "Slides construction", "Slides is constructed without a preceding rename_slide_parts on the same id list",
                       file=ctor[0][0].file if ctor else None, line=ctor[0][1].lineno if ctor else None)
-    rn = prog.func("pptx.parts.presentation", "PresentationPart.rename_slide_parts")
-    s = ast.unparse(rn.node)
-    if "enumerate(rIds)" in s and "idx + 1" in s and "/ppt/slides/slide%d.xml" in s:
-        ctx.ok("R6.3", "rename_slide_parts", sample={"names": "/ppt/slides/slide%d.xml % (idx+1) in rIds order"})
-    else:
-        ctx.violation("R6.3", "rename_slide_parts", "renaming does not assign slide1..n in presentation order", file=rn.file, line=rn.line)
+    from checks.c16 import rename_rule
+
+    rename_rule(ctx, prog, "R6.3")
 
     # -- R6.4 ------------------------------------------------------------------------------------------
     ctx.rule("R6.4", "id attributes are written only at creation sites")
